@@ -105,6 +105,11 @@ theorem TClaimX.childWakeNextPc {api : Option ApiCall} {P : NoteId → Prop} {s1
   · exact ⟨ha, fun _ => hp⟩
   · unfold childLoopStartPc; split <;> exact ⟨ha, fun _ => hp⟩
 
+theorem TClaimX.childLoopStartPc {api : Option ApiCall} {P : NoteId → Prop} (cs : List NoteId)
+    {f : Frame} {rest : List Frame} {top : Top} (ha : api = some (top.k.api top.n)) (hp : P top.n) :
+    TClaimX api P (Note.childLoopStartPc cs f rest top) := by
+  unfold Note.childLoopStartPc; split <;> exact ⟨ha, fun _ => hp⟩
+
 theorem TClaimX.freeLoopStartPc (api : Option ApiCall) (P : NoteId → Prop) (cs : List NoteId)
     (n : NoteId) (par : Option NoteId) : TClaimX api P (Note.freeLoopStartPc cs n par) := by
   cases cs <;> simp [Note.freeLoopStartPc, TClaimX]
@@ -127,7 +132,7 @@ theorem tclaimX_step {s s' : State} {e : Event} {a : Tid} (hr : Reachable s)
   all_goals (try subst ha)
   all_goals (try (rw [‹s.pc _ = _›] at hc hL))
   all_goals (try (simp only [setPc_pc, upd_same, afterDeadline_pc, afterNotify_pc, childReturn_pc,
-    childWakeNext_pc, freeLoopStart_pc, enterChild_pc, leave_pc, addUser_pc, markCalled_pc,
+    childWakeNext_pc, childScanStart_pc, freeLoopStart_pc, enterChild_pc, leave_pc, addUser_pc, markCalled_pc,
     markFreeing_pc, setAfter_pc, pushObs_pc, publish_pc, delUser_pc, markBorn_pc, allocNote_pc]))
   all_goals (try (exact absurd rfl (hcall _ _)))
   all_goals (try trivial)
@@ -135,6 +140,7 @@ theorem tclaimX_step {s s' : State} {e : Event} {a : Tid} (hr : Reachable s)
   all_goals (try (exact TClaimX.afterDeadlinePc hc.1 (fun h => hmono _ (hc.2 rfl h))))
   all_goals (try (exact TClaimX.afterNotifyPc hc.1 (hmono _ (hc.2 rfl))))
   all_goals (try (exact TClaimX.childWakeNextPc hc.1 (hmono _ (hc.2 (Or.inr rfl)))))
+  all_goals (try (exact TClaimX.childLoopStartPc _ hc.1 (hmono _ (hc.2 (Or.inr rfl)))))
   all_goals (try (exact TClaimX.childReturnPc hc.1 (hmono _ (hc.2 (Or.inr rfl)))))
   all_goals (try (simp_all [TClaimX, DK.api, NK.api]; done))
   · -- note.c/4 read 1
